@@ -86,7 +86,7 @@ DefIn(s, f, x, v) ==
 
 Builtins == {"+", "-", "*", "/", "mod", "==", "!=", "<", ">", "<=", ">=", "not",
              "list", "cons", "first", "rest", "len", "append", "concat", "aget", "array",
-             "trace", "tr", "map", "apply", "fail", "force", "str", "hash", "hget", "hset", "keys",
+             "trace", "tr", "map", "apply", "fail", "force", "substitute", "str", "hash", "hget", "hset", "keys",
              "null?", "empty?", "second"}
 
 (* ---------------- builtins over data ---------------- *)
@@ -203,6 +203,15 @@ Pure(name, a, s) ==
          ELSE Val(I(c), [s EXCEPT !.calls = c])
     [] OTHER -> Res("undef", name, s)
 
+(* the expression of a lazy argument as data (what substitute returns) *)
+RECURSIVE Datum(_)
+Datum(e) ==
+    CASE e[1] \in {"int", "str", "bool", "nil", "sym"} -> e
+      [] e[1] = "call" ->
+           LET parts == <<Datum(e[2])>> \o [i \in 1..Len(e[3]) |-> Datum(e[3][i])] IN
+           IF \E i \in 1..Len(parts) : parts[i] = <<"undef">> THEN <<"undef">> ELSE <<"list", parts>>
+      [] OTHER -> <<"undef">>
+
 (* ---------------- the evaluator ---------------- *)
 RECURSIVE Ev(_, _, _), EvSeq(_, _, _, _), EvArgs(_, _, _, _, _, _), Call(_, _, _), Loop(_, _, _),
           EvBind(_, _, _, _, _), EvCond(_, _, _, _), EvShort(_, _, _, _, _), MapOver(_, _, _, _, _),
@@ -258,6 +267,11 @@ Call(fv, a, s) ==
                ELSE Call(a[1], SeqOf(a[2]), s)
           [] fv[2] = "force" ->
                IF Len(a) # 1 THEN Res("undef", "force-arity", s) ELSE Force(a[1], s)
+          [] fv[2] = "substitute" ->      \* the source expression of a lazy argument, unevaluated
+               IF Len(a) # 1 THEN Res("undef", "substitute-arity", s)
+               ELSE IF a[1][1] # "lazy" THEN Val(a[1], s)
+               ELSE LET d == Datum(s.thk[a[1][2]].e) IN
+                    IF d = <<"undef">> THEN Res("undef", "substitute-datum", s) ELSE Val(d, s)
           [] OTHER -> Pure(fv[2], a, s)
     ELSE IF fv[1] = "clo" THEN
         LET c == s.clo[fv[2]]
@@ -387,6 +401,9 @@ Ev(e, f, s0) ==
     [] e[1] = "assert" ->
          LET r == Ev(e[2], f, s) IN
          IF ~IsVal(r) THEN r ELSE IF Truthy(r.v) THEN Val(Nil, r.s) ELSE ErrR("assert", r.s)
+    [] e[1] = "eval" ->     \* (eval (quote e)): e is compiled when reached and run in the current scope
+         LET r == Ev(e[2], f, s) IN
+         IF r.k \in {"brk", "cnt"} THEN ErrR("break-outside-loop", r.s) ELSE r
     [] OTHER -> Res("undef", e[1], s)
 
 (* ---------------- running a program ---------------- *)
